@@ -144,6 +144,19 @@ func requestMutations(fn *ssa.Function) []requestMutation {
 				if own(base) {
 					return
 				}
+				// a nil header map replaced by an empty one (guard in front of Header.Set): the
+				// request carries the same — no — fields before and after
+				if f == "Header" {
+					if _, isMk := x.Val.(*ssa.MakeMap); isMk {
+						for _, g := range GuardingIfs(x) {
+							if bo, isB := g.If.Cond.(*ssa.BinOp); isB && bo.Op == token.EQL && g.Succ == 0 {
+								if b2, f2, ok2 := FieldLoad(bo.X); ok2 && f2 == "Header" && SameValue(b2, base) && IsNilConst(bo.Y) {
+									return
+								}
+							}
+						}
+					}
+				}
 				out = append(out, requestMutation{fn, i, "field:" + f, "", x.Val})
 				return
 			}
@@ -305,7 +318,7 @@ func runC02(c *Ctx) {
 	}
 
 	// ---- C02.B: nobody on the pass-through path consumes or re-parses the request body
-	c.Rule("C02.B", "the forwarded request's body is not read, parsed or replaced on the pass-through path", 1)
+	c.Rule("C02.B", "the forwarded request's body is not read, parsed or replaced on the pass-through path", 2)
 	{
 		consumers := []string{"(*net/http.Request).ParseForm", "(*net/http.Request).ParseMultipartForm", "(*net/http.Request).FormValue", "(*net/http.Request).PostFormValue", "(*net/http.Request).FormFile", "(*net/http.Request).MultipartReader",
 			"net/http/httputil.DumpRequest", "net/http/httputil.DumpRequestOut", "(*net/http.Request).Write", "(*net/http.Request).WriteProxy", "(*net/http.Request).Clone"}
@@ -339,6 +352,43 @@ func runC02(c *Ctx) {
 			})
 		}
 		c.Check("C02.B", "request-path:body-untouched", p, 0, bad == "" && inspected > 100, fmt.Sprintf("%d call sites on the request path inspected: none reads, parses, dumps or re-serialises the forwarded request (the shim endpoints read their own control messages only)", inspected), "on the pass-through path "+bad+": the backend no longer receives the body the client sent (consumed/parsed before forwarding)")
+	}
+
+	// the stored client request (pendingRequest.req) is consumed by Request.Write only: nobody in the
+	// stand-alone proxy peeks at, pre-reads or replaces its body (a reader left behind by a timed-out
+	// peek swallows the first bytes of a slow upload)
+	{
+		bad := ""
+		n := 0
+		stored := func(v ssa.Value) bool {
+			for _, r := range Roots(v) {
+				if base, fld, ok := FieldLoad(r); ok && fld == "req" && NamedTypeRel(base.Type()) == "server.pendingRequest" {
+					return true
+				}
+			}
+			return false
+		}
+		for _, fn := range p.AllFuncsIn("server") {
+			EachInstrRaw(fn, func(i ssa.Instruction) {
+				switch x := i.(type) {
+				case *ssa.UnOp:
+					if base, fld, ok := FieldLoad(x); ok && isRequestType(base.Type()) {
+						n++
+						if (fld == "Body" || fld == "GetBody") && stored(base) {
+							bad = "the body of the stored client request is taken at " + p.Pos(x.Pos())
+						}
+					}
+				case *ssa.Store:
+					if base, fld, ok := FieldAddrOf(x.Addr); ok && isRequestType(base.Type()) && stored(base) {
+						switch fld {
+						case "Body", "ContentLength", "TransferEncoding", "GetBody":
+							bad = "field " + fld + " of the stored client request is replaced at " + p.Pos(x.Pos())
+						}
+					}
+				}
+			})
+		}
+		c.Check("C02.B", "proxy:stored-request-body-consumed-by-Write-only", p, 0, bad == "" && n > 0, fmt.Sprintf("%d field reads of requests in the stand-alone proxy: the stored client request's body is touched by Request.Write only", n), bad+": bytes read ahead of Request.Write (or by a reader abandoned after a timeout) never reach the agent, so the backend receives a body without its first bytes")
 	}
 
 	c.Rule("C02.R", "the agent does not read the request body it forwards", 1)
